@@ -19,6 +19,9 @@ Ctx(e, len) == [quads |-> {<<q[1], q[2], q[3], q[4]>> : q \in ToSet(e.quads)}, g
 \* a JSON object is a record = a function over its keys: exactly a solution mapping
 Same(e, len) == LET X == Ctx(e, len) IN SeqBag(e.sols) = Solutions(X, e.q, ViewOf(X, e.q), "")
 
+Relaxations == {{"unbound"}, {"types"}, {"concat"}, {"order"}, {"unbound", "types", "concat", "order"}, {"sideways"},
+                {"sideways", "unbound", "types", "concat", "order"}}
+
 Judge(e) ==
   LET X == Ctx(e, {}) IN
   IF e.res # "ok" THEN e.res
@@ -32,6 +35,7 @@ Judge(e) ==
   ELSE IF Same(e, {"unbound", "types", "concat", "order"}) THEN "lenient:several"
   ELSE IF Same(e, {"sideways"}) THEN "lenient:sideways"
   ELSE IF Same(e, {"sideways", "unbound", "types", "concat", "order"}) THEN "lenient:sideways+"
+  ELSE IF \E L \in Relaxations : ~AllCutsDefinite(Ctx(e, L), e.q.p, ViewOf(Ctx(e, L), e.q), "") THEN "skip-cut"
   ELSE "wrong"
 
 Step ==
